@@ -25,7 +25,13 @@ TReset == /\ Is("Reset") /\ Adv
 TWrite == /\ Is("Write") /\ Adv
           /\ Write(Ev.type, [fill |-> Ev.fill, len |-> Ev.len], FileOf(Ev.ret), FileOf(Ev.seen))
 
-TNext == TReset \/ TWrite
+(* write_file returned an error (disk full, file size limit): the file is whatever the failed write left, *)
+(* and nothing is claimed about it                                                                       *)
+TWriteFailed == /\ Is("WriteFailed") /\ Adv
+                /\ file' = [file EXCEPT ![Ev.type] = [FileOf(Ev.seen) EXCEPT !.byDaemon = file[Ev.type].byDaemon]]
+                /\ last' = [last EXCEPT ![Ev.type] = <<>>] /\ bad' = {} /\ UNCHANGED cfg
+
+TNext == TReset \/ TWrite \/ TWriteFailed
 Report == (bad' \cap Enforce # {}) => PrintT(<<"BAD", bad' \cap Enforce, l>>)
 TSpec == TInit /\ [][TNext /\ Report]_tvars
 Accepted == LET d == TLCGet("stats").diameter IN
